@@ -642,6 +642,11 @@ impl<'t> Interp<'t> {
         let c = op.a[0] as usize % carriers.len();
         let len = op.a[3] as usize % 200;
         let mut req = TypedReq { method: op.a[1] as u8, ty: op.a[2] as u8, len, try_: op.a[4] & 1 == 1, panic_at: op.panic_at, seed: op.a[5] as u8 };
+        if req.method % 22 >= 20 && (len / 2) % 4 == 3 && (self.trace.param_or("loop_rounds", 0) > 0 || self.frames.iter().any(|f| f.isolated)) {
+            // the closure of alloc_try_with would size its own allocation from the remaining capacity: a workload
+            // that is replayed or looped must not depend on the state it runs in (same rule as decode_size)
+            req.len -= 2;
+        }
         if !req.try_ && !self.panicking_safe(len * 16 + 4096) {
             req.try_ = true;
         }
@@ -677,9 +682,18 @@ impl<'t> Interp<'t> {
                     self.viol(if self.on.c01 { "C01/typed-length" } else { "C02/typed-length" }, format!("typed slice allocation (method {}) handed out {got} elements for {want}", req.method % 22));
                 }
             }
-            Ok(TypedRes::Nothing) => {
+            Ok(TypedRes::Nothing { bytes, inert_dealloc }) => {
                 ok = true;
                 eff = Effect::Rewinds;
+                let info = arena.info();
+                if (inert_dealloc || !info.deallocates) && self.on.c13 {
+                    // opt-out honoured: the box that was handed back stays allocated
+                    let snap = arena.snap();
+                    if snap.typed.allocated < before.typed.allocated + bytes {
+                        self.viol("C13/optout-dealloc-reclaimed", format!("typed dealloc of a {bytes}-byte box {} changed allocated() from {} to {} (it must stay allocated)", if inert_dealloc { "through WithoutDealloc" } else { "with DEALLOCATES = false" }, before.typed.allocated, snap.typed.allocated));
+                    }
+                    eff = Effect::Grows;
+                }
             }
             Ok(TypedRes::Failed) => self.failed_call("typed try_ allocation", None, false),
             Ok(TypedRes::ClosureErr { extra }) => {
@@ -794,7 +808,9 @@ impl<'t> Interp<'t> {
                 }
             }
             K_O_RESERVE => {
-                let n = 1 + op.a[2] as usize % 10_000;
+                // reserve(0) is a request like any other: "every request ... reserve ... fails" (the crate's own
+                // tests/claim.rs also expects zero-length requests to fail on a claimed allocator)
+                let n = if op.a[2] % 8 == 0 { 0 } else { 1 + op.a[2] as usize % 10_000 };
                 // (through a trait object the panicking form used to report a claimed arena with
                 // handle_alloc_error, i.e. a process abort: defect F3, repaired)
                 let try_ = op.a[1] & 1 == 1;
